@@ -229,7 +229,8 @@ def make_adiabatic_pulse(
         elif pulse_type == 'wurst':
             bandwidth = bandwidth
 
-        center_pos, _ = calc_rf_center(rf)
+        time_center, _ = calc_rf_center(rf)
+        center_pos = time_center / duration
 
         amplitude = bandwidth / slice_thickness
         area = amplitude * duration
